@@ -45,7 +45,7 @@ def bcfg(cfg):
 
 def mcfg(cfg):
     """... and in the mux engine's"""
-    return {"dw": cfg["cdw"], "aw": cfg["caw"], "regs": cfg["regs"], "ov": cfg["ov"]}
+    return {"dw": cfg["cdw"], "aw": cfg["caw"], "regs": cfg["regs"], "ov": cfg["ov"], "late": cfg.get("late", 0)}
 
 
 def geometry(cfg):
@@ -262,6 +262,10 @@ def gen_case(seed, tier, idx):
     g = geometry(cfg)
     T = rnd.choice([200, 300]) if tier == "quick" else rnd.choice([300, 500])
     stim = gen_proto(rnd, g, cfg, T) if kind == "proto" else gen_free(rnd, g, cfg, T, kind)
+    ru = mkrnd(seed, "bridgemux-use", idx)
+    if ru.random() < 0.25:
+        # the last k registers join the map after the multiplexer is constructed, before the bridge is
+        cfg["late"] = ru.randint(1, len(cfg["regs"]))
     case = {"engine": "bridgemux", "kind": kind, "cfg": cfg, "stim": stim}
     # resets from a random stream of their own (bridge engine's placement rules)
     rr = mkrnd(seed, "bridgemux-reset", idx)
